@@ -87,3 +87,69 @@ theorem DE.genStep_stepLog [LinearOrder E] (g : DEGen X E) (s : DE X E) :
   · exact DE.step1_stepLog g.o g.trials _
 
 end MysticVerif.Solver
+
+namespace MysticVerif.Solver
+
+variable {X E : Type}
+
+/-- "this point carries this energy legitimately under SOME objective of the family `S`" (all with the same `inf`) -/
+def GoodAny (S : Obj X E → Prop) (T : E) (log : List (X × E)) (y : X) (e : E) : Prop :=
+  e ≠ T → ∃ o, S o ∧ e = o.add (o.raw y) (o.pen y) ∧ (y, o.raw y) ∈ log ∧ o.K y = y ∧
+    (o.useRange = true → o.inBox y = true)
+
+theorem GoodAny.mono {S : Obj X E → Prop} {T : E} {log log' : List (X × E)} {y : X} {e : E}
+    (h : GoodAny S T log y e) (hsub : ∀ p ∈ log, p ∈ log') : GoodAny S T log' y e := by
+  intro he
+  obtain ⟨o, ho, h1, h2, h3, h4⟩ := h he
+  exact ⟨o, ho, h1, hsub _ h2, h3, h4⟩
+
+theorem Good.toAny {S : Obj X E → Prop} {o : Obj X E} (ho : S o) {log : List (X × E)} {y : X} {e : E}
+    (h : Good o log y e) : GoodAny S o.top log y e := by
+  intro he
+  obtain ⟨h1, h2, h3, h4⟩ := h he
+  exact ⟨o, ho, h1, h2, h3, h4⟩
+
+theorem DE.select_best_cases [LinearOrder E] (s : DE X E) (i : Nat) (y : X) (e : E) :
+    ((s.select i y e).best = s.best ∧ (s.select i y e).bestE = s.bestE) ∨
+    ((s.select i y e).best = y ∧ (s.select i y e).bestE = e) := by
+  unfold DE.select
+  split
+  · exact Or.inl ⟨rfl, rfl⟩
+  · split
+    · split
+      · exact Or.inr ⟨rfl, rfl⟩
+      · exact Or.inl ⟨rfl, rfl⟩
+    · exact Or.inl ⟨rfl, rfl⟩
+
+theorem DE.candidates1_bestAny [LinearOrder E] {S : Obj X E → Prop} {o : Obj X E} (h : Hyp o) (ho : S o) :
+    ∀ (ts : List X) (i : Nat) (s : DE X E), GoodAny S o.top s.log s.best s.bestE →
+      GoodAny S o.top (DE.candidates1 o ts i s).log (DE.candidates1 o ts i s).best (DE.candidates1 o ts i s).bestE := by
+  intro ts
+  induction ts with
+  | nil => intro i s hs; exact hs
+  | cons t ts ih =>
+    intro i s hs
+    unfold DE.candidates1
+    apply ih
+    rw [DE.select_log]
+    simp only
+    rcases DE.select_best_cases { s with log := (o.objAt (o.K t) s.log).2 } i (o.K t) (o.objAt (o.K t) s.log).1 with hc | hc
+    · rw [hc.1, hc.2]
+      exact hs.mono (objAt_log_sub o _ _)
+    · rw [hc.1, hc.2]
+      exact (objAt_good h t s.log).toAny ho
+
+theorem DE.genStep_bestAny [LinearOrder E] {S : Obj X E → Prop} (g : DEGen X E) (h : Hyp g.o) (ho : S g.o)
+    (s : DE X E) (hs : GoodAny S g.o.top s.log s.best s.bestE) :
+    GoodAny S g.o.top (DE.genStep g s).log (DE.genStep g s).best (DE.genStep g s).bestE := by
+  have key : ∀ s0 : DE X E, GoodAny S g.o.top s0.log s0.best s0.bestE →
+      GoodAny S g.o.top (DE.step1 g.o g.trials s0).log (DE.step1 g.o g.trials s0).best (DE.step1 g.o g.trials s0).bestE := by
+    intro s0 h0
+    unfold DE.step1
+    exact DE.candidates1_bestAny h ho g.trials 0 s0 h0
+  unfold DE.genStep
+  split
+  · rw [DE.step2_eq_step1]; exact key _ hs
+  · exact key _ hs
+
+end MysticVerif.Solver
